@@ -206,7 +206,7 @@ impl Render for Sn {
 
 /// an `f64` sample that keeps the sign of a zero on the protocol (`-0`): for code that merely stores, selects or hands on
 /// samples (median, the cache wrapper), `+0.0` and `-0.0` are two different values although `==` calls them equal
-#[derive(Clone, Copy, Debug, PartialEq, PartialOrd)]
+#[derive(Clone, Copy, Debug, Default, PartialEq, PartialOrd)]
 pub struct Fz(pub f64);
 impl FromVal for Fz {
     fn from_val(v: Val) -> Fz {
